@@ -32,6 +32,15 @@ CHECKS = {
  "C11": ("exploration", "reference-model monitor: pi-derived Blowfish reference (self-checked on 16 published vectors) over recorded encrypt/decrypt calls",
          "Every recorded encrypt/decrypt of the real library is compared with an independent Blowfish whose tables are computed from pi; any altered table word, round count, key-schedule or padding step changes essentially every ciphertext, so thousands of (key,message) pairs across key lengths 8..56 and message lengths 0..4096 give high confidence; exploration because keys/messages are unbounded.",
          "reference implementation + published vectors are trusted"),
+ "C13": ("exploration", "reference-model monitor with tolerance: Python BCn/BGRA decoders written from the specification",
+         "Every output byte of every decoded texture is checked against the accepted range of an independent decoder (exact for pass-through channels, endpoints and selector mapping; floor/round/ceil for interpolants), across formats, odd sizes, depths, attribute bits and adversarial endpoint orderings incl. per-block sweeps.",
+         "BCn per Direct3D specification; BC3 colour block decoded as BC1 as the property states"),
+ "C14": ("exploration", "reference-model monitor: independent MTRL/SHPK builders, private fields observed through Debug output parsed in Python",
+         "Field-by-field equality for materials (all table modes, permuted string heaps, arbitrary half patterns distinct per component, dye bit fields) and shader packages (shaders, parameters, keys, nodes, aliases), find_node for every node/alias/unknown selector, selectors vs the base-31 polynomial computed in Python.",
+         "layouts as in Lumina/Penumbra"),
+ "C16": ("exploration", "reference-model monitor: independent SKLB+Havok tag-file writer, PBD/CMP/TERA/LGB builders; round trips through the library's writers",
+         "Every returned record is compared with what the independent builders planted; Havok tag files vary type tables, member order/presence, packed-int widths and string back-references; deformer queries are judged on a Python forest for every ordered pair of body ids in the documented domain.",
+         "tag-file format v3; documented layouts"),
  "C15": ("exploration", "table monitor over completely enumerated finite domains + injectivity invariant + ordering monitor over permutations (sort() and on-disk discovery)",
          "All race/tribe/gender triples, all file-name tuples and (thorough) all equipment ids x slots x triples and all permutations of all subsets up to 7 repositories are enumerated through the real functions and compared with independent tables; the finite parts are exhaustive, the cross-check with patch-side names and discovery orders is sampled.",
          "race-code table and naming conventions of the retail client are trusted"),
